@@ -140,6 +140,27 @@ var propertyClauses = map[string]clauseInfo{
 			"that pop is only called with a non-empty stack follows from the Walk discipline (Post follows a Pre that pushed); not generated",
 		},
 	},
+	"C02": {
+		decided: []string{
+			"character boundaries, for valid UTF-8 input: the spans of the nodes the tokeniser creates directly (character references, autolinks and their text child, soft and hard line breaks, and the text nodes made by parseBackslash) begin and end on character boundaries — obligations at every addToRoot call, for every path",
+			"an autolink's text child lies inside the autolink's span",
+			"a root block's span ends at len(Source) (makeRoot)",
+		},
+		notDecided: []string{
+			"validity (0 <= Start <= End <= len(Source)), nesting and sibling order in general: they need the cursor invariant of parse across the abstracted tree-building calls (A-C02-1) and contracts on wrap / processEmphasis / parseEndBracket / the block-structure code",
+			"boundaries of plain-text nodes whose end is the end of the unparsed run, and of nodes built by the abstracted functions",
+			"\"preceded only by spaces/tabs\" for the root span start",
+		},
+	},
+	"C03": {
+		decided: []string{
+			"ATX heading content is exactly the section 4.2 raw contents (parseATXHeading, shared with C15; one open known finding)",
+			"inside the tokeniser, a node created for a construct (character reference, autolink, soft/hard line break) starts exactly where the plain-text node added just before it ended, so no byte is lost or covered twice around these constructs",
+		},
+		notDecided: []string{
+			"tiling of a whole unparsed run across loop iterations and across the abstracted calls (delimiter runs, brackets, code spans, raw HTML), the multi-line cursor jumps, collectTextNodes / collectCodeSpan, list markers and block-level text collection (addLineText)",
+		},
+	},
 	"C05": {
 		decided: []string{
 			"accessors agree with the shape: HeadingLevel is the stored level for ATX/setext headings and 0 elsewhere; IsOrderedList/IsTightList are functions of the delimiter / looseness fields; ListItemNumber is -1 or 0..999999999; LinkDestination/LinkTitle return a child of that kind among the last two children, or nil; InfoString is the first inline child of a fenced block when it has that kind",
